@@ -23,6 +23,8 @@ pub struct LoopCampaign {
   pub sweep: bool,
   /// route bytes through the real reader/writer on pipes (C18 hybrid mode)
   pub hybrid: bool,
+  /// hybrid only: every send of the schedule fails in turn at the OS level under the real writer
+  pub write_faults: bool,
   pub io_faults: bool,
   pub quick_runs: u64,
   pub thorough_runs: u64,
@@ -32,19 +34,20 @@ pub struct LoopCampaign {
 impl LoopCampaign {
   pub fn new(property: &'static str, source: SourceB, quick_runs: u64, thorough_runs: u64) -> LoopCampaign {
     let shipped = if source == SourceB::Shipped { shipped_layouts() } else { vec![] };
-    LoopCampaign { property, source, en: EnB::only(property), force_special: false, force_tablet: false, sweep: false, hybrid: false, io_faults: false, quick_runs, thorough_runs, shipped }
+    LoopCampaign { property, source, en: EnB::only(property), force_special: false, force_tablet: false, sweep: false, hybrid: false, write_faults: false, io_faults: false, quick_runs, thorough_runs, shipped }
   }
   pub fn special(mut self) -> Self { self.force_special = true; self }
   pub fn tablet(mut self) -> Self { self.force_tablet = true; self }
   pub fn sweep(mut self) -> Self { self.sweep = true; self }
   pub fn hybrid(mut self) -> Self { self.hybrid = true; self }
+  pub fn write_faults(mut self) -> Self { self.write_faults = true; self.hybrid = true; self }
 
   pub fn generate(&self, seed: u64, thorough: bool) -> CaseB {
     let mut rng = Rng::new(seed);
     let (layout, name) = match self.source {
       SourceB::Shipped => { let n = &self.shipped[rng.below(self.shipped.len())]; (n.layout.clone(), n.name.clone()) }
       SourceB::Random => {
-        let o = LayoutOpts { absorbing: rng.chance(1, 3), norepeat: rng.chance(1, 2), special: self.force_special || rng.chance(2, 3), max_map: if thorough { rng.range(1, 6) } else { rng.range(1, 4) }, big: thorough && rng.chance(1, 3), edge_times: true };
+        let o = LayoutOpts { weird: rng.chance(1, 5), absorbing: rng.chance(1, 3), norepeat: rng.chance(1, 2), special: self.force_special || rng.chance(2, 3), max_map: if thorough { rng.range(1, 6) } else { rng.range(1, 4) }, big: thorough && rng.chance(1, 3), edge_times: true };
         let mut tries = 0;
         loop {
           let mut l = gen_layout(&mut rng, &o);
@@ -61,7 +64,10 @@ impl LoopCampaign {
       }
     };
     let mut ho = swarm_hist(&mut rng, false, true, false, false);
-    ho.len = if thorough { rng.range(2, 40) } else { rng.range(2, 18) };
+    // one run in eight is a burst: a long history that arrives in a few big batches, so a single
+    // readiness notification covers tens of events
+    let bursty = rng.chance(1, 8);
+    ho.len = if bursty { if thorough { rng.range(20, 150) } else { rng.range(20, 70) } } else if thorough { rng.range(2, 40) } else { rng.range(2, 18) };
     ho.resets = false;
     let mut st = GenStats::default();
     let ops = gen_ops(&mut rng, &layout, &ho, &mut st);
@@ -72,7 +78,7 @@ impl LoopCampaign {
     let mut tab_state = false;
     for op in ops {
       let e = match op { Op::Ev(e) => e, _ => continue };
-      let gap = match rng.below(10) { 0..=2 => 0, 3..=4 => rng.below(5000) as u64, 5..=7 => 20_000 + rng.below(80_000) as u64, _ => 150_000 + rng.below(400_000) as u64 };
+      let gap = if bursty && !rng.chance(1, 12) { 0 } else { match rng.below(10) { 0..=2 => 0, 3..=4 => rng.below(5000) as u64, 5..=7 => 20_000 + rng.below(80_000) as u64, _ => 150_000 + rng.below(400_000) as u64 } };
       t += gap;
       if has_tablet && rng.chance(1, tab_rate) {
         // mostly alternate, sometimes repeat the same state
@@ -96,7 +102,7 @@ impl LoopCampaign {
     let span = t.max(1);
     let kbd_end_at = if rng.chance(1, 8) { Some(rng.below(span as usize + 1) as u64) } else { None };
     let tab_end_at = if has_tablet && rng.chance(1, 16) { Some(rng.below(span as usize + 1) as u64) } else { None };
-    CaseB { layout, layout_name: name, kbd, tab, has_tablet, cfg, tape: vec![], fail_at: None, extra_ticks: rng.below(6) as u32, kbd_end_at, tab_end_at, hybrid: self.hybrid }
+    CaseB { layout, layout_name: name, kbd, tab, has_tablet, cfg, tape: vec![], fail_at: None, extra_ticks: rng.below(6) as u32, kbd_end_at, tab_end_at, hybrid: self.hybrid, write_fault: None }
   }
 }
 
@@ -209,11 +215,13 @@ pub fn minimise_b(case: &CaseB, en: &EnB, label: &str, cause: &str) -> (CaseB, V
 }
 
 impl Campaign for LoopCampaign {
-  fn name(&self) -> String { format!("loopsim-{}{}{}", match self.source { SourceB::Shipped => "shipped", SourceB::Random => "random" }, if self.sweep { "-sweep" } else { "" }, if self.hybrid { "-hybrid" } else { "" }) }
+  fn name(&self) -> String { format!("loopsim-{}{}{}{}", match self.source { SourceB::Shipped => "shipped", SourceB::Random => "random" }, if self.sweep { "-sweep" } else { "" }, if self.write_faults { "-writefault" } else { "" }, if self.hybrid { "-hybrid" } else { "" }) }
   fn world(&self) -> &'static str { "B" }
   fn runs(&self, thorough: bool) -> u64 { if thorough { self.thorough_runs } else { self.quick_runs } }
   fn declare(&self, acc: &mut Acc) {
-    for f in ["signal_interrupts_poll", "spurious_timeout_idle", "spurious_readiness", "io_latency_in_call", "timer_oversleep", "keyboard_unplugged", "tablet_switch_unplugged", "io_error_in_driver_call", "device_order_flipped", "arrival_during_drain", "backoff_sleep"] { acc.declare_fault(f); }
+    for f in ["signal_interrupts_poll", "spurious_timeout_idle", "spurious_readiness", "io_latency_in_call", "timer_oversleep", "keyboard_unplugged", "tablet_switch_unplugged", "device_order_flipped", "arrival_during_drain", "backoff_sleep"] { acc.declare_fault(f); }
+    if self.sweep { acc.declare_fault("io_error_in_driver_call"); }
+    if self.write_faults { for f in ["os_write_eagain_under_real_writer", "os_write_epipe_under_real_writer", "os_write_ebadf_under_real_writer"] { acc.declare_fault(f); } }
     acc.declare_probe("wakeup_with_two_or_more_events"); acc.declare_probe("both_devices_ready_in_one_wakeup");
     if self.property == "C11" || self.property == "C12" || self.property == "C10" { acc.declare_probe("repeat_chords_sent"); acc.declare_probe("timer_ticks"); }
     if self.property == "C11" { for p in ["chord_while_keys_held", "chord_with_repeat_key_already_held", "timer_disarmed_by_key_event", "ignored_event_while_timer_armed", "poll_with_overdue_timer"] { acc.declare_probe(p); } }
@@ -238,8 +246,8 @@ impl Campaign for LoopCampaign {
       let s = &o.stats;
       acc.fault("signal_interrupts_poll", s.eintr); acc.fault("spurious_timeout_idle", s.spurious_timeout); acc.fault("spurious_readiness", s.spurious_ready);
       acc.fault("io_latency_in_call", s.latency); acc.fault("timer_oversleep", s.oversleep); acc.fault("keyboard_unplugged", s.kbd_unplugged); acc.fault("tablet_switch_unplugged", s.tab_unplugged);
-      acc.fault("io_error_in_driver_call", s.io_error); acc.fault("device_order_flipped", s.order_flipped); acc.fault("arrival_during_drain", s.arrival_during_drain); acc.fault("backoff_sleep", s.backoff_sleeps);
-      acc.probe_n("wakeup_with_two_or_more_events", s.multi_event_wakeups); acc.probe_n("both_devices_ready_in_one_wakeup", s.both_devices_ready);
+      acc.fault("io_error_in_driver_call", s.io_error); acc.fault("os_write_eagain_under_real_writer", s.os_write_fault[0]); acc.fault("os_write_epipe_under_real_writer", s.os_write_fault[1]); acc.fault("os_write_ebadf_under_real_writer", s.os_write_fault[2]); acc.fault("device_order_flipped", s.order_flipped); acc.fault("arrival_during_drain", s.arrival_during_drain); acc.fault("backoff_sleep", s.backoff_sleeps);
+      acc.probe_n("wakeup_with_two_or_more_events", s.multi_event_wakeups); acc.probe_n("both_devices_ready_in_one_wakeup", s.both_devices_ready); acc.probe_n("wakeup_with_sixteen_or_more_events", s.max_events_one_wakeup);
       acc.count("steps", o.trace.len() as u64); acc.count("sim_us", o.sim_us); acc.count("backoff_slept_us", o.slept_us); acc.count("trace_cap_hit", s.trace_cap_hit);
     };
     tally(&out, acc);
@@ -274,6 +282,29 @@ impl Campaign for LoopCampaign {
       acc.count("single_fault_executions", evaluations_extra);
       acc.count("swept_schedules", 1);
     }
+    if self.write_faults && verdict.is_none() {
+      // every write of this schedule fails in turn underneath the real writer, three errno kinds
+      let n_sends = out.trace.iter().filter(|it| matches!(it, Item::Send { .. })).count();
+      'outer: for k in 0..n_sends {
+        for kind in 0..3u8 {
+          let mut ck = case.clone(); ck.write_fault = Some((k, kind));
+          match run_b(&ck, None) {
+            Ok(ok) => {
+              evaluations_extra += 1;
+              tally(&ok, acc);
+              let mut o2 = ObsB::default();
+              let v = match catch_unwind(AssertUnwindSafe(|| check_trace(&l, &ok.trace, &ok.result, &en, &mut o2))) { Ok(v) => v, Err(e) => { harness_error = Some(format!("reference loop panicked: {}", panic_msg(&e))); None } };
+              state_hashes.push(o2.shape);
+              digest = crate::rng::mix(digest, ok.digest);
+              if ok.stats.os_write_fault.iter().sum::<u64>() == 0 { harness_error = Some(format!("write-fault sweep: send {} of {} was never reached on re-execution", k, n_sends)); }
+              if let Some(v) = v { verdict = Some(v); fail_case = ck; break 'outer; }
+            }
+            Err(p) => { acc.count("sut_panics_in_sweep", 1); }
+          }
+        }
+      }
+      acc.count("os_write_fault_executions", evaluations_extra);
+    }
     acc.probe_n("repeat_chords_sent", obs.chords); acc.probe_n("timer_ticks", out.stats.timer_ticks);
     if self.property == "C11" {
       acc.probe_n("chord_while_keys_held", obs.chords_while_held); acc.probe_n("chord_with_repeat_key_already_held", obs.chord_key_held);
@@ -281,7 +312,7 @@ impl Campaign for LoopCampaign {
     }
     if self.property == "C12" { acc.probe_n("tablet_on_while_keys_held", obs.tablet_on_while_held); acc.probe_n("tablet_on_while_timer_armed", obs.tablet_on_while_timer); acc.probe_n("keyboard_reads_in_tablet_mode", obs.reads_in_tablet_mode); }
     acc.count("other_property_disagreements", obs.other_property_disagreements);
-    let nt = match self.property { "C10" => obs.nt_c10, "C11" => obs.nt_c11, "C12" => obs.nt_c12, "C19" => obs.nt_c19, "C20" => self.sweep && out.calls >= 4, "C18" => obs.sends > 0, _ => true };
+    let nt = match self.property { "C10" => obs.nt_c10, "C11" => obs.nt_c11, "C12" => obs.nt_c12, "C19" => obs.nt_c19, "C20" => (self.sweep && out.calls >= 4) || (self.write_faults && out.trace.iter().any(|it| matches!(it, Item::Send { .. }))), "C18" => obs.sends > 0, _ => true };
     let hash = case.hash();
     let sample = if ctx.want_sample { Some(json!({"case": case.json(), "trace_head": out.trace.iter().take(30).map(item_str).collect::<Vec<_>>(), "result": format!("{:?}", out.result)})) } else { None };
     let failure = verdict.map(|v| {
@@ -299,7 +330,7 @@ impl Campaign for LoopCampaign {
     format!("layout = {}; key history as in world A (length 2-18 quick, 2-40 thorough) turned into arrivals with gaps drawn from {{0 (same batch), <5 ms, 20-100 ms, 150-550 ms}}; tablet on/off events sprinkled in{}; schedule/fault choices (order of the two devices in one wake-up, latency inside a call, signal interruption at an arbitrary instant with simulated 4 s/8 s back-off, spurious time-out while idle, spurious readiness, timer oversleep <=2 ms, device removal at an arbitrary time, 0-5 extra timer ticks) enabled swarm-style and recorded on a decision tape{}; a case is distinct by hash of (layout, arrivals, tape, fault point); non-trivial = {}",
       match self.source { SourceB::Shipped => "built-in or README layout", SourceB::Random => "random small layout (Special repeats with delay 0-200 ms, interval 1-60 ms)" },
       if self.force_tablet { " (tablet switch always present)" } else { " (tablet switch present in 1/3 of the runs)" },
-      if self.sweep { "; then the schedule is re-executed once per driver call with exactly that call (register, poll, read or send) returning an I/O error" } else { "" },
+      if self.sweep { "; then the schedule is re-executed once per driver call with exactly that call (register, poll, read or send) returning an I/O error" } else if self.write_faults { "; bytes go through the real reader/writer on pipes, and the schedule is re-executed once per send x {EAGAIN (queue full), EPIPE (consumer gone), EBADF} with the OS-level write under the real DevInputWriter failing" } else { "" },
       match self.property {
         "C10" => "a wake-up delivered >=2 events, or readiness for both devices, or was preceded by an interruption/spurious time-out",
         "C11" => ">=2 repeat chords in the run, or a chord while another key was held",
